@@ -118,16 +118,14 @@ def run(prop, tier, seed, replay=None):
                 if r.get("out") and r["out"][0]["dur"] > 0:
                     bad = copy.deepcopy(r)
                     bad["out"][0]["dur"] += 1
+                    traces.append([copy.deepcopy(r)])      # control
                     traces.append([bad])
                     ncan += 1
                     break
     acc, rej, stats = tlc.judge("AwIntervalsTrace", JUDGE, traces, tag="judge_" + prop, chunk=60)
     rep.add_judge_stats(stats)
     nreal = len(parts)
-    for ci in range(nreal, nreal + ncan):
-        if ci in acc:
-            raise tlc.TLCFailure("canary (output piece lengthened) accepted by the judge")
-    rep.notes["canaries_rejected"] = ncan
+    rep.notes["canaries_rejected"] = tlc.check_canary_pairs(acc, nreal, ncan, "output piece lengthened")
     byop = {}
     for c in cases:
         byop[c[0]] = byop.get(c[0], 0) + 1
